@@ -615,3 +615,10 @@ func init() {
 		mutant{Name: "nil-interface-value-looked-into", Prop: "C05", File: "interp/run.go", Old: "\t\t\tif ok && v.node == nil {\n\t\t\t\t// The zero valueInterface is the nil value of an interface type.\n\t\t\t\tok = false\n\t\t\t}\n", New: "", Rule: "R05.20", Key: "typeAssert/asserted-value#1/nil-node-tested-before-use"},
 	)
 }
+
+func init() {
+	addMutants(
+		// D141 reverted
+		mutant{Name: "fields-promoted-through-named-fields", Prop: "C05", File: "interp/type.go", Old: "\t\t\t\tif tias && !f.embed {\n\t\t\t\t\t// Only the fields of an embedded field are promoted.\n\t\t\t\t\tcontinue\n\t\t\t\t}\n", New: "", Rule: "R05.21", Key: "itype.lookupField/field-loop#1/only-embedded-fields-promote"},
+	)
+}
